@@ -3,14 +3,15 @@ from scoda.misc.music_theory import Key, CircleOfFifths, MusicMapping, Note
 
 ENGINE = "E1-sweep"
 FRESH_WORKERS = True     # every unit runs in a newly forked child: the tables and any cache start from the import state
-RULE = ("complete enumeration: 15 keys x every interval in [-36,36]; all interval pairs in [-13,13] per key; "
+RULE = ("complete enumeration: 15 keys x every interval in [-300,300] and 48 far ones (+-10^6+k, +-2^31+k); all interval pairs in [-13,13] "
+        "and all pairs over the far summands (+-64, +-127, +-128, +-200, +-1000) x ([-13,13] and the far summands) per key; "
         "all 128x128 pitch pairs; 128 x [-12,12] for from_distance - repeated after each of 9 call histories (preludes) "
         "executed first in a fresh process: nothing, key guessing on a sequence, from_distance before anything else "
         "(all / even pitches only), get_position first, distances in reverse order first, transposing sequences and "
         "bars with keys, tokeniser annotations, repeated transposition chains; distinct = distinct (prelude, argument "
         "tuple); non-trivial = all but interval 0 / a == b")
 ASSUMPTIONS = ["tonic table and major-scale pattern of the oracle are written independently in this file"]
-REQUIRED_FLAGS = ["transpose_multiple_of_12", "transpose_negative", "enharmonic_key_transposed", "cof_tritone"] + \
+REQUIRED_FLAGS = ["transpose_multiple_of_12", "transpose_negative", "enharmonic_key_transposed", "cof_tritone", "transpose_beyond_pitch_range"] + \
                  ["prelude:" + x for x in ("none", "key_guess", "from_distance_first", "tokeniser_info")]
 
 TONIC = {"C": 0, "G": 7, "D": 2, "A": 9, "E": 4, "B": 11, "F#": 6, "C#": 1, "F": 5, "Bb": 10, "Eb": 3, "Ab": 8,
@@ -20,10 +21,13 @@ KEYS = list(TONIC)
 
 
 def context(tier, seed):
-    return {"bounds": {"keys": 15, "intervals": [-36, 36], "pair_intervals": [-13, 13], "pitches": 128,
+    return {"bounds": {"keys": 15, "intervals": [-300, 300], "far_intervals": len(FAR), "pair_intervals": [-13, 13],
+                       "far_summands": BIG, "pitches": 128,
                        "from_distance": [-12, 12]}}
 
 
+FAR = [s * (b + k) for b in (10 ** 6, 2 ** 31) for k in range(12) for s in (1, -1)]
+BIG = [64, -64, 127, -127, 128, -128, 200, -200, 1000, -1000]
 PRELUDES = ["none", "key_guess", "from_distance_first", "from_distance_even_first", "get_position_first",
             "reverse_distance_first", "transpose_objects", "tokeniser_info", "transpose_chain"]
 
@@ -149,9 +153,10 @@ def check_case(case, ctx):
 def cases_of(unit):
     kind = unit[0]
     if kind == "transpose":
-        return [("transpose", k, i) for k in KEYS for i in range(-36, 37)] + [("scale", k) for k in KEYS]
+        return [("transpose", k, i) for k in KEYS for i in list(range(-300, 301)) + FAR] + [("scale", k) for k in KEYS]
     if kind == "additive":
-        return [("additive", k, i, j) for k in KEYS for i in range(-13, 14) for j in range(-13, 14)]
+        return [("additive", k, i, j) for k in KEYS for i in range(-13, 14) for j in range(-13, 14)] + \
+               [("additive", k, i, j) for k in KEYS for i in BIG for j in list(range(-13, 14)) + BIG]
     a0 = unit[2]
     return [("cof", a, b) for a in range(a0, a0 + 32) for b in range(128)] + \
            [("from", a, d) for a in range(a0, a0 + 32) for d in range(-12, 13)]
@@ -171,6 +176,8 @@ def run_unit(unit, acc, ctx):
                 acc.flag("transpose_multiple_of_12")
             if c[2] < 0:
                 acc.flag("transpose_negative")
+            if abs(c[2]) > 127:
+                acc.flag("transpose_beyond_pitch_range")
             if c[1] in ("Db", "Gb", "Cb"):
                 acc.flag("enharmonic_key_transposed")
         if c[0] == "cof" and (c[2] - c[1]) % 12 == 6:
